@@ -126,13 +126,13 @@ pub fn level(prop: &str) -> &'static str {
 
 pub fn rule(prop: &str) -> String {
     let body = match prop {
-        "C10" => "Each seeded run generates one scenario (model, data, weights, operation script of 3-24 caller-driven ops with revisits, extreme parameters, failed updates, clones, conversions, an occasional whole fit) and executes it under 3 heap fill patterns; 8-12% of the scenarios are 'concurrent' variants: 1-2 ConcurrentQueries operations (2-4 caller threads querying residuals/coefficients/Jacobian of the shared problem through &self at the same time) are inserted and the whole pass runs inside the shuttle runtime under one seeded random/PCT schedule with scheduling points at every model call - every simultaneous caller must see bitwise what a lone caller saw immediately before; evaluations counts scenario executions. A run is non-trivial only if at least one bitwise comparison against a freshly built problem happened AND its pre-history contained a different parameter vector or a failed update. distinct = distinct signatures (model kind, flavour, and per comparison: op position, the two preceding op kinds, cache presence before, failed-update-in-history flag) among non-trivial runs.",
+        "C10" => "Each seeded run generates one scenario (model, data, weights, operation script of 3-24 caller-driven ops with revisits, extreme parameters, failed updates, clones, conversions, an occasional whole fit) and executes it under 3 heap fill patterns; 8-12% of the scenarios are 'concurrent' variants: 1-2 ConcurrentQueries operations (2-4 caller threads querying residuals/coefficients/Jacobian of the shared problem through &self at the same time) are inserted and the whole pass runs inside the shuttle runtime under one seeded random/PCT schedule with scheduling points at every model call - every simultaneous caller must see bitwise what a lone caller saw immediately before (a race whose window contains no model call is out of reach of these callers: the miri layer listed under miri_layer runs three real caller threads under a high preemption rate for that); evaluations counts scenario executions. A run is non-trivial only if at least one bitwise comparison against a freshly built problem happened AND its pre-history contained a different parameter vector or a failed update. distinct = distinct signatures (model kind, flavour, and per comparison: op position, the two preceding op kinds, cache presence before, failed-update-in-history flag) among non-trivial runs.",
         "C09" => "Each seeded run generates one scenario (build -> 0-4 caller-driven ops incl. conversions into_sequential/into_parallel -> fit or fit_with_statistics -> recovery update and Jacobian). 75% of runs enumerate: the scenario is executed fault-free to learn its sequence of model calls, then EVERY call position (beyond 547 calls per scenario: the first 150, the last 60 and a stride over the middle, so that one scenario stays below ~300k model calls per plan) is re-executed with a transient failure, a persistent failure (and 'fail after mutating' for set_params; wrong-length closure output for builder-made models; a burst at every 7th position); 25% of runs execute a seeded 2-3 fault plan (bursts, heals, persistent). evaluations counts scenario executions (each with a tap-twin execution when a fit is present). An execution is non-trivial only if a fault actually fired; distinct = distinct signatures (model kind, flavour, kind of the failing call, phase build/pre/fit/post, persistence, action, outcome of the fit).",
         "C02" => "Each seeded run generates one scenario (model, observations with 1-4 columns, mostly non-trivial weights incl. zeros/negatives/wide ranges, operation script of 2-20 caller-driven updates/queries/weighted-data reads/conversions, usually a fit; 40% of hand-written-model runs have 1-2 transient model failures between good updates) and executes it once; after every operation the residual identity r = vec(W.Y - (W.Phi_ref(alpha)).C) is evaluated element-wise within a forward-error bound at the alpha the problem reports, weighted data are compared with w*y, best_fit with Phi_ref(alpha_hat)*C_hat, params with the last vector the model acknowledged. The FitResult is kept after a fit: in 40% of the scenarios with a fit the problem inside the result is updated 1-2 more times through the public field and the result's accessors (nonlinear_parameters, linear_coefficients, best_fit) are asked again - they must describe the state the problem is in then. One scenario in eight builds its problem with repeated builder setter calls (weights and/or observations set twice, the later call must replace the earlier). A run is non-trivial only if at least one residual identity was evaluated with weights that are not all ones AND a residual norm above 1e-6*||W.Y||; distinct = distinct signatures (model kind, width, flavour, API, S, M, sequence of update/weighted-data/fit outcomes).",
         "C04" => "Each seeded run generates one scenario (model, data exact or noisy, start exact/near/mid/far, optimizer knob swarm: patience 1-100, zero/huge/epsilon tolerances, tiny step bound, no diagonal scaling; 15% with a failing model) and executes one fit (or fit_with_statistics) twice: through LevMarSolver::fit and through the same optimizer on a tap around a twin problem. Every run with a completed fit is non-trivial; distinct = distinct signatures (model kind, model shape M/P and N bucket, flavour, API, termination reason, accepted steps 0..6+, ended on a restored rejected step, width, Ok/Err).",
         "C06" => "Each seeded run generates one scenario and one of three twin constructions: 'row-scaling' (problem A with weights w vs problem B whose basis functions and derivatives have row i multiplied by w_i inside the model and whose observations are w.Y, no weights; weights mild, 10^-6..10^6, with zeros, with negatives), 'unit-weights' (all-ones weights vs none) and 'zero-weight' (one weight exactly 0 vs that row deleted). Both twins are driven along the same history: build, 1-6 caller-driven updates/Jacobians/conversions (into_sequential, into_parallel) in lock-step, equal build() outcome of both twins, then A's optimizer runs through the tap and B is slaved to every parameter vector the optimizer applies (residuals and Jacobian compared at every step), then an independent fit_with_statistics on each twin (result, reduced chi2, covariance). evaluations counts the two twin executions per run. Every run is non-trivial; distinct = distinct signatures (twin kind, model kind, width, flavour, S, M, P, decades spanned by the weights, negatives, zeros, number of optimizer steps in lock-step).",
         "C08" => "Each seeded run generates one scenario in one of two regimes and executes it under BOTH build profiles, under the hang watchdog: 'far' (well-formed data, initial and caller-set parameters log-uniform over twelve decades with random signs, so that the optimizer walks into overflow on its own) and 'hostile' (cells of x, y, w, alpha, epsilon replaced with probability 2-15% by +-0, subnormals, +-MAX, +-inf, NaN; degenerate shapes N=1, N<M, N*S<P, duplicated abscissae; 12% mis-shaped: weights or observations of length 0, 1, N-1, N+1, 2N, N*S, N*S+1 instead of N; non-finite values injected into model/closure output at chosen calls, once/burst/forever). Operations: build, 0-2 set_params with Jacobians, fit or fit_with_statistics, confidence band, Jacobian. A run is non-trivial only if it actually reached a rejected (cache-empty) state, had non-finite inputs, or ended in an Err fit; distinct = distinct signatures (model kind, width, regime, flavour, N, M, P, S, fit outcome and termination reason, cache emptied, build accepted).",
-        "C11" => "Each seeded run generates one scenario (model, data, operation script with updates, Jacobians, conversions, usually a fit; 20% with a failing partial derivative) and a schedule specification (simulated pool size 1-16, injected or not, probabilities of the four join outcomes inline / stolen-late / stolen-early / overlapped, tape seed; 10-20% in overlap mode under shuttle's seeded random or PCT scheduler). The scenario is executed as the parallel problem under that schedule (optimizer on a tap), as the sequential twin, as the parallel problem through LevMarSolver::fit, (which never converts, so that a lossy conversion of the parallel problem shows on its later use) and as the parallel problem under two further schedules (one of them a 1-thread pool); 6-8% of the scenarios additionally contain ConcurrentQueries operations (2-4 caller threads sharing the parallel problem, their column loops and stolen arms interleaved by shuttle's seeded scheduler; serialised in the sequential twin); evaluations counts these executions. A run is non-trivial only if at least one arm was actually stolen; distinct = distinct signatures (pool size, injected, per-join outcome sequence, order in which derivative columns were computed, overlap mode).",
+        "C11" => "Each seeded run generates one scenario (model, data, operation script with updates, Jacobians, conversions, usually a fit; 20% with a failing partial derivative) and a schedule specification (simulated pool size 1-16, injected or not, probabilities of the four join outcomes inline / stolen-late / stolen-early / overlapped, tape seed; 10-20% in overlap mode under shuttle's seeded random or PCT scheduler). The scenario is executed as the parallel problem under that schedule (optimizer on a tap), as the sequential twin, as the parallel problem through LevMarSolver::fit, (which never converts, so that a lossy conversion of the parallel problem shows on its later use) and as the parallel problem under two further schedules (one of them a 1-thread pool); 6-8% of the scenarios additionally contain ConcurrentQueries operations (2-4 caller threads sharing the parallel problem, their column loops and stolen arms interleaved by shuttle's seeded scheduler; serialised in the sequential twin); every arm runs on a simulated worker (current_thread_index: a stolen arm on an idle worker); races between column tasks whose window contains no model call are out of reach of the simulated pool - the miri layer listed under miri_layer runs the real pool with fewer workers than columns under a high preemption rate for that; evaluations counts these executions. A run is non-trivial only if at least one arm was actually stolen; distinct = distinct signatures (pool size, injected, per-join outcome sequence, order in which derivative columns were computed, overlap mode).",
         "C12" => "Each seeded run generates one scenario with N - (M+P) drawn from {-3..+3, large}, weights on/off, both widths, optimizer knob swarm incl. patience 1 (failing fits), and executes fit_with_statistics under BOTH build profiles (overflow checks on / off). 88% of runs enumerate: after a fault-free execution (with a tap twin that locates the end of the optimizer), EVERY model-call position of the statistics computation is re-executed with a transient and a persistent model failure; 12% execute a seeded mid-fit failure. evaluations counts scenario executions. Every execution with a completed call is non-trivial; distinct = distinct signatures (model kind, model shape M/P, width, flavour, sign/size of N-(M+P) clamped to +-4, termination reason, Ok/Err, phase of the failure, weights).",
         "C17" => "Each seeded run generates one builder-made model (random parameter lists, arities 0-3, shared parameters, invariant functions) and a history of 3-24 bare-model calls: set_params with lengths {P,0,P-1,P+1,2P}, eval, eval_partial_deriv(k) with k in {0..P-1,P,P+7,usize::MAX}; the history is executed fault-free and then once for EVERY (closure, wrong length in {0,N-1,N+1,2N}) pair, the closure returning that length at a seeded call index. The reference model is the last accepted parameter vector. An execution is non-trivial only if a wrong-length output was actually returned or a wrong-length parameter vector was applied; distinct = distinct signatures (width, M, P, function/derivative closure, empty/shorter/longer, outcome sequence).",
         _ => "",
